@@ -491,8 +491,9 @@ def execute(spec, tier, seed, only_case=None):
             ev = dict(property_id=prop, tier=tier, seed=int(seed), level=spec["level"], coverage=cov,
                       assumptions=spec.get("assumptions", []), wall_s=round(time.time() - t0, 2),
                       violations=len(unknown))
-            os.makedirs(os.path.join(VERIF, "evidence"), exist_ok=True)
-            with open(os.path.join(VERIF, "evidence", prop + ".json"), "w") as f:
+            evdir = os.environ.get("VERIF_EVIDENCE_DIR") or os.path.join(VERIF, "evidence")  # side runs on a copy keep out of evidence/
+            os.makedirs(evdir, exist_ok=True)
+            with open(os.path.join(evdir, prop + ".json"), "w") as f:
                 json.dump(ev, f, indent=1, sort_keys=True)
                 f.write("\n")
         if res.harness_fail:
